@@ -113,6 +113,37 @@ WORKER_PARALLEL = dict(
                                     "MPI.COMM_WORLD.gather": ("gather", {"root": "0"})})),
     ])
 
+CACHE_PARALLEL = dict(
+    out="CacheParallel", file="executorlib/backend/cache_parallel.py",
+    funcs=[
+        dict(py="main", name="file_rank",
+             straight=dict(
+                 pre=["from mpi4py import MPI",
+                      "MPI.pickle.__init__(cloudpickle.dumps, cloudpickle.loads, pickle.HIGHEST_PROTOCOL)",
+                      "mpi_rank_zero = MPI.COMM_WORLD.Get_rank() == 0",
+                      "mpi_size_larger_one = MPI.COMM_WORLD.Get_size() > 1",
+                      "file_name = sys.argv[1]"],
+                 post=["MPI.COMM_WORLD.Barrier()"],
+                 params=["loaded", "mpi_rank_zero", "mpi_size_larger_one"],
+                 replace={"backend_load_file(file_name=file_name)": "loaded"},
+                 apply="apply_dict['fn'].__call__(*apply_dict['args'], **apply_dict['kwargs'])", apply_arg="apply_dict",
+                 sink=("backend_write_file", "output", {"file_name": "file_name"}),
+                 collectives={"MPI.COMM_WORLD.bcast": ("bcast", {"root": "0"}),
+                              "MPI.COMM_WORLD.gather": ("gather", {"root": "0"})})),
+    ])
+
+CACHE_BACKEND = dict(
+    out="CacheBackend", file="executorlib/cache/backend.py",
+    funcs=[
+        dict(py="backend_execute_task_in_file", name="file_serial",
+             straight=dict(
+                 pre=[], post=[], params=["loaded"],
+                 replace={"backend_load_file(file_name=file_name)": "loaded"},
+                 apply="apply_dict['fn'].__call__(*apply_dict['args'], **apply_dict['kwargs'])", apply_arg="apply_dict",
+                 sink=("backend_write_file", "output", {"file_name": "file_name"}),
+                 collectives={})),
+    ])
+
 SHARED_RES = dict(
     out="SharedRes", file="executorlib/interactive/shared.py", requires=["InputCheck"],
     funcs=[
@@ -177,4 +208,4 @@ BASE_EXEC = dict(
                           params=["self", "resource_dict"], returns=["resource_dict"])),
     ])
 
-TARGETS = [INPUTCHECK, SPAWNER, COMMUNICATION, BACKEND, SHARED_PATH, CACHE_CMD, WORKER_SERIAL, WORKER_PARALLEL, SHARED_RES, CACHE_RES, CONFIG_INTER, CONFIG_FILE, CONFIG_TOP, BASE_EXEC]
+TARGETS = [INPUTCHECK, SPAWNER, COMMUNICATION, BACKEND, SHARED_PATH, CACHE_CMD, WORKER_SERIAL, WORKER_PARALLEL, CACHE_PARALLEL, CACHE_BACKEND, SHARED_RES, CACHE_RES, CONFIG_INTER, CONFIG_FILE, CONFIG_TOP, BASE_EXEC]
